@@ -624,14 +624,17 @@ def build(repo):
                        && neg_post(b, overhead_of(old(request).message) as int + old(request).message.payload@.len() as int, old(request).message.payload@.len() as int, max_total_message_size as int, Ok(Some(nb)))
                        && #[trigger] opts_view(final(request).response->0.message.options)
                            == push_opt(opts_view(old(request).response->0.message.options), 27, block_bytes(nb)) }),
-            // C09: a block that is not out of reach is accepted whenever there is a reply to answer with and the budget admits
+            // C09: a block delivered in order is accepted whenever there is a reply to answer with and the budget admits
             // the client's block size (in particular a block delivered a second time in a row)
             ({ // @clause block-accepted @props C09
                let b = first_block(opts_view(old(request).message.options), 27);
                let ov = overhead_of(old(request).message) as int; let m = max_total_message_size as int;
                b is Some && old(request).response is Some && opts_encodable(old(request).message)
                    && old(request).message.payload@.len() <= sz(b->0.size_exponent)
-                   && (b->0.num as int) * sz(b->0.size_exponent) + sz(b->0.size_exponent) <= buf_of(*old(state)).len() + 16384
+                   // "in order": the block starts inside or right at the end of what is buffered (next block, a block delivered
+                   // again, or block 0 over an abandoned upload); how far beyond that a handler is willing to jump is its own
+                   // choice, bounded from above by C11 only
+                   && (b->0.num as int) * sz(b->0.size_exponent) <= buf_of(*old(state)).len()
                    && sz(b->0.size_exponent) + ov + 32 <= m && m <= 1280 ==> r is Ok }),
             // C09 "exactly once": a final block with num > 0 that finds no upload in progress (the final block
             // delivered a second time) must not be handed to the application
